@@ -14,7 +14,7 @@ from harness.snapshot import _NoTracing
 from pypika_tortoise import Case, Field, Not
 from pypika_tortoise import functions as fn
 from pypika_tortoise.enums import Boolean, Equality
-from pypika_tortoise.terms import NestedCriterion, Term
+from pypika_tortoise.terms import Array, NestedCriterion, Term, ValueWrapper
 
 ASSUMPTIONS = [
     "term classes are taken from the live package (subclasses of Term found by introspection); abstract ones (Term, "
@@ -54,6 +54,9 @@ def extra_terms():
         ("Field+aliased-table", lambda: Field("a", table=t)),
         ("Cast", lambda: fn.Cast(Field("a"), "INT")),
         ("Extract", lambda: fn.Extract("YEAR", Field("a"))),
+        ("ValueWrapper+int", lambda: ValueWrapper(7)),      # constants: become placeholders under a parameterizer
+        ("ValueWrapper+str", lambda: ValueWrapper("v")),
+        ("Array+constants", lambda: Array(1, 2)),
     ]
 
 
@@ -168,8 +171,26 @@ def check(name, ci, pos, d, alias, args):
             return SKIP
         exp = out_plain[:len(out_plain) - len(suffix)] + " " + q + alias.replace(q, q + q) + q + suffix
         note("expected", exp)
-        return verdict(out_alias == exp, name, **args)
-    return verdict(out_alias == out_plain, name, **args)
+        if not (out_alias == exp):
+            return verdict(False, name, **args)
+    elif not (out_alias == out_plain):
+        return verdict(False, name, **args)
+    # the same under a parameterizer (constants become placeholders; aliases are not values)
+    try:
+        p_plain = place(pos, d, plain).get_sql(dctx(d, True))
+        p_alias = place(pos, d, aliased).get_sql(dctx(d, True))
+    except Exception as e:
+        note("why", "parameterised rendering raised " + type(e).__name__ + ": " + str(e)[:80])
+        return verdict(False, name, **args)
+    note("plain_parameterised", p_plain)
+    note("aliased_parameterised", p_alias)
+    if pos == 0:
+        if not p_plain.endswith(suffix):
+            return verdict(False, name, **args)
+        exp = p_plain[:len(p_plain) - len(suffix)] + " " + q + alias.replace(q, q + q) + q + suffix
+        note("expected_parameterised", exp)
+        return verdict(p_alias == exp, name, **args)
+    return verdict(p_alias == p_plain, name, **args)
 
 
 def pin(v, n):
@@ -278,3 +299,40 @@ def c12_references(d: int, kind: int, in_select: bool, clause: int, setop: bool,
         note("accepted", want)
     return verdict(tail in want, "c12_references", d=d, kind=kind, in_select=in_select, clause=clause, setop=setop,
                    other_case=other_case)
+
+
+@harness(
+    prop="C12",
+    cubes={"d": range(ND)},
+    bounds={"quick": {}, "thorough": {}},
+    timeout={"quick": 120, "thorough": 300},
+    witness=[dict(d=0, kind=0, where=0), dict(d=1, kind=2, where=1), dict(d=5, kind=1, where=2)],
+    doc="ORDER BY of a set operation referring to an aliased term: the alias may be written only if the FIRST member's "
+        "select list defines it (the first member names the result columns); otherwise the full expression; through str()",
+)
+def c12_setop_order(d: int, kind: int, where: int) -> int:
+    """
+    bound: 0 <= kind <= 2 and 0 <= where <= 2
+    """
+    kind, where = pin(kind, 3), pin(where, 3)
+    with _NoTracing():
+        t, u = Table("t"), Table("u")
+        if kind == 0:
+            term = Field("a")
+        elif kind == 1:
+            term = fn.Max(Field("a"))
+        else:
+            term = Field("a") + Field("b")
+        expr = term.get_sql(dctx(d))
+        al = term.as_("al")
+        # where: 0 = the first member defines "al", 1 = only the second member does, 2 = nobody does
+        first = QS[d].from_(t).select(Field("z"), al if where == 0 else Field("y"))
+        second = QS[d].from_(u).select(Field("z"), term.as_("al") if where == 1 else Field("y"))
+        sql = str(first.union(second).orderby(al))
+        tail = sql[sql.rindex(" ORDER BY ") + len(" ORDER BY "):]
+        aq = aqchar(d)
+        want = [aq + "al" + aq, expr] if where == 0 else [expr]
+        note("sql", sql)
+        note("clause_text", tail)
+        note("accepted", want)
+    return verdict(tail in want, "c12_setop_order", d=d, kind=kind, where=where)
